@@ -626,6 +626,8 @@ enum PriorKind {
     OneQuad,
     Populated,
     DictUnrelated,
+    /// the dictionary holds exactly one unrelated term, no quads
+    DictOneTerm,
     DictOverlap,
     LoadedBefore(Fmt),
     PrefixClash,
@@ -638,6 +640,7 @@ impl PriorKind {
             PriorKind::OneQuad => "one_quad".into(),
             PriorKind::Populated => "populated_500_with_named_graphs".into(),
             PriorKind::DictUnrelated => "dictionary_prepopulated_unrelated_terms".into(),
+            PriorKind::DictOneTerm => "dictionary_holding_one_unrelated_term".into(),
             PriorKind::DictOverlap => "dictionary_prepopulated_document_terms".into(),
             PriorKind::LoadedBefore(f) => format!("loaded_before_through_{}", f.name()),
             PriorKind::PrefixClash => "populated_and_clashing_prefix_map".into(),
@@ -648,7 +651,14 @@ impl PriorKind {
             0..=2 => PriorKind::Empty,
             3 => PriorKind::OneQuad,
             4..=7 => PriorKind::Populated,
-            8..=9 => PriorKind::DictUnrelated,
+            8 => PriorKind::DictUnrelated,
+            9 => {
+                if r.coin() {
+                    PriorKind::DictUnrelated
+                } else {
+                    PriorKind::DictOneTerm
+                }
+            }
             10..=11 => PriorKind::DictOverlap,
             12..=14 => PriorKind::LoadedBefore(*r.pick(&[Fmt::NTriples, Fmt::NQuads, Fmt::Turtle, Fmt::RdfXml])),
             _ => PriorKind::PrefixClash,
@@ -693,6 +703,9 @@ fn build_prior(kind: PriorKind, seed: u64, doc: &Doc) -> SparqlDatabase {
             for i in 0..n {
                 d.encode(&format!("http://other/u{}", i));
             }
+        }
+        PriorKind::DictOneTerm => {
+            db.dictionary.write().unwrap().encode("http://other/u0");
         }
         PriorKind::DictOverlap => {
             let mut terms: Vec<String> = doc.quads.iter().flat_map(|q| [q.0.clone(), q.1.clone(), q.2.clone()]).collect::<BTreeSet<_>>().into_iter().collect();
@@ -1033,15 +1046,29 @@ impl<'a> Check<'a> {
             let mut sample = vec![];
             for (c, b) in blocks.iter().enumerate() {
                 let lines = &doc.lines[c * 1000..((c + 1) * 1000).min(doc.lines.len())];
+                // names written in this block before any declaration of their prefix inside the block
+                let mut declared: BTreeSet<String> = BTreeSet::new();
+                let mut undeclared_uses: BTreeSet<String> = BTreeSet::new();
+                for l in lines {
+                    let l = l.trim();
+                    if let Some(rest) = l.strip_prefix("@prefix ") {
+                        declared.insert(rest.split(':').next().unwrap_or("").trim().to_string());
+                        continue;
+                    }
+                    for tok in l.split_whitespace() {
+                        if resolve_pname(tok) != tok && !declared.contains(tok.split(':').next().unwrap_or("")) {
+                            undeclared_uses.insert(tok.to_string());
+                        }
+                    }
+                }
                 for q in &b.0 {
                     for t in [&q.0, &q.1, &q.2] {
                         let t1 = unquote(t);
                         if resolve_pname(&t1) != t1 {
                             n_unresolved += 1;
                             let p = t1.split(':').next().unwrap_or("").to_string();
-                            let declared_here = lines.iter().any(|l| l.trim_start().starts_with(&format!("@prefix {}:", p)));
                             let declared_earlier = doc.lines[..c * 1000].iter().any(|l| l.trim_start().starts_with(&format!("@prefix {}:", p)));
-                            if declared_here || !declared_earlier {
+                            if !undeclared_uses.contains(&t1) || !declared_earlier {
                                 ok = false;
                             }
                             if sample.len() < 4 {
@@ -1060,7 +1087,7 @@ impl<'a> Check<'a> {
             }
             ctx.violation(
                 json!({"kind": "document_triples_wrong", "format": "n3", "cause": cause}),
-                self.witness(json!({"unresolved_terms": n_unresolved, "sample": sample, "established_by": "blocks loaded alone: every name left unresolved is declared by an @prefix line of an earlier 1000-line block and not in its own block"})),
+                self.witness(json!({"unresolved_terms": n_unresolved, "sample": sample, "established_by": "blocks loaded alone: every name left unresolved is declared by an @prefix line of an earlier 1000-line block and is used in its own block before any declaration inside that block"})),
             );
         }
         if u2 != e {
@@ -1323,6 +1350,7 @@ fn check_ntriples_api(ctx: &mut Ctx, doc: &Doc, threads: usize) {
 
 fn run(ctx: &mut Ctx) {
     let thorough = ctx.thorough();
+    witnesses(ctx);
 
     // ---- phase 1: the designed matrix of sizes around the chunk boundaries
     let line_sizes: Vec<usize> = if thorough { vec![0, 1, 2, 999, 1000, 1001, 1999, 2000, 2001, 3500, 2999, 3000, 3001, 5000, 10001] } else { vec![0, 1, 2, 999, 1000, 1001, 1999, 2000, 2001, 3500] };
@@ -1488,50 +1516,116 @@ fn run(ctx: &mut Ctx) {
             "literal_with_inner_space" => doc.quads.iter().any(|q| q.2.contains(' ')),
             _ => true,
         };
-        ctx.add_evals(1);
-        ctx.count(&format!("term_feature_documents.{}.{}", feature, fmt.name()), 1);
-        let build = SparqlDatabase::new;
-        let c = Check { fmt, doc: &doc, build: &build, prior: "empty".into(), threads: 1, step: "load" };
-        match run_load(&build, fmt, &doc.text(), 1) {
-            Err(e) => report_fail(ctx, &c, e),
-            Ok(out) => {
-                let exp = expected_after(&out.before, &doc);
-                if out.after == exp {
-                    ctx.count(&format!("term_feature_held.{}", feature), 1);
-                    if has_feature {
-                        ctx.nontrivial(hash_str(&format!("terms|{}|{}", fmt.name(), hash_str(&doc.text()))));
-                    }
-                } else if feature == "plain" || !has_feature {
-                    checked(ctx, &c, &out);
-                } else {
-                    // established by construction: the same generator without the feature is
-                    // loaded correctly by this loader (checked on the spot)
-                    let mut tg0 = tg.clone();
-                    tg0.spaced = false;
-                    tg0.hash_ns = false;
-                    let mut r0 = ctx.rng(k);
-                    let d0 = gen_doc(&mut r0, fmt, &o, &tg0);
-                    let base_ok = matches!(run_load(&build, fmt, &d0.text(), 1), Ok(b) if b.after == expected_after(&b.before, &d0));
-                    // literal quoting of N3 is reported by its own cause; look only at what the
-                    // feature adds
-                    let norm = |d: &Dataset| -> BTreeSet<LQuad> { if fmt == Fmt::N3 { map_terms(&d.quads, &unquote) } else { d.quads.clone() } };
+        // the same generator without the feature (base line for the attribution)
+        let mut tg0 = tg.clone();
+        tg0.spaced = false;
+        tg0.hash_ns = false;
+        let mut r0 = ctx.rng(k);
+        let _ = (r0.range(3, 40), TermGen::for_size(&mut r0, n), DocOpts::random(&mut r0, fmt, n));
+        let d0 = gen_doc(&mut r0, fmt, &o, &tg0);
+        feature_check(ctx, fmt, &doc, &d0, feature, has_feature);
+    }
+}
+
+/// One term feature in a small document, empty database, one thread. A failure is attributed
+/// to the feature when the base document (same shape without the feature) loads correctly.
+fn feature_check(ctx: &mut Ctx, fmt: Fmt, doc: &Doc, base: &Doc, feature: &'static str, has_feature: bool) {
+    ctx.add_evals(1);
+    ctx.count(&format!("term_feature_documents.{}.{}", feature, fmt.name()), 1);
+    let build = SparqlDatabase::new;
+    let c = Check { fmt, doc, build: &build, prior: "empty".into(), threads: 1, step: "load" };
+    // literal quoting of N3 is reported by its own cause; look only at what the feature adds
+    let norm = |d: &Dataset| -> BTreeSet<LQuad> { if fmt == Fmt::N3 { map_terms(&d.quads, &unquote) } else { d.quads.clone() } };
+    match run_load(&build, fmt, &doc.text(), 1) {
+        Err(e) => report_fail(ctx, &c, e),
+        Ok(out) => {
+            let exp = expected_after(&out.before, doc);
+            if out.after == exp {
+                ctx.count(&format!("term_feature_held.{}", feature), 1);
+                if has_feature {
+                    ctx.nontrivial(hash_str(&format!("terms|{}|{}", fmt.name(), hash_str(&doc.text()))));
+                }
+            } else if feature == "plain" || !has_feature || norm(&out.after) == exp.quads {
+                checked(ctx, &c, &out);
+            } else {
+                let base_ok = matches!(run_load(&build, fmt, &base.text(), 1), Ok(b) if norm(&b.after) == expected_after(&b.before, base).quads);
+                if base_ok {
                     let got = norm(&out.after);
-                    let base_ok = base_ok || fmt == Fmt::N3;
-                    if got == exp.quads {
-                        checked(ctx, &c, &out);
-                    } else if base_ok {
-                        let miss: Vec<&LQuad> = exp.quads.difference(&got).collect();
-                        let extra: Vec<&LQuad> = got.difference(&exp.quads).collect();
-                        ctx.violation(
-                            json!({"kind": "term_not_loaded_as_written", "format": fmt.name(), "feature": feature}),
-                            c.witness(json!({"missing": miss.len(), "missing_sample": sample_quads(miss.iter().copied()), "unexpected": extra.len(), "unexpected_sample": sample_quads(extra.iter().copied()), "established_by": "the same document generator without the feature loads correctly through this loader"})),
-                        );
-                    } else {
-                        checked(ctx, &c, &out);
-                    }
+                    let miss: Vec<&LQuad> = exp.quads.difference(&got).collect();
+                    let extra: Vec<&LQuad> = got.difference(&exp.quads).collect();
+                    ctx.count(&format!("term_feature_broken.{}.{}", feature, fmt.name()), 1);
+                    ctx.violation(
+                        json!({"kind": "term_not_loaded_as_written", "format": fmt.name(), "feature": feature}),
+                        c.witness(json!({"missing": miss.len(), "missing_sample": sample_quads(miss.iter().copied()), "unexpected": extra.len(), "unexpected_sample": sample_quads(extra.iter().copied()), "established_by": "the same document without the feature loads correctly through this loader"})),
+                    );
+                } else {
+                    checked(ctx, &c, &out);
                 }
             }
         }
+    }
+}
+
+// ---------------------------------------------------------------------------------------
+// hand-written minimal documents (one per mechanism that the random phases found broken, and
+// their counterparts for the other loaders): stable, small replay files
+
+fn hand_doc(fmt: Fmt, lines: Vec<String>, triples: &[(&str, &str, &str)], stmts: Vec<(usize, usize, Vec<usize>)>) -> Doc {
+    let o = DocOpts { target: lines.len(), prefix_mode: PrefixMode::None, style: Style::Flat, comments: false, crlf: false, trailing_newline: true, dup12: 0, compact: false, sparql_prefix: false };
+    Doc { fmt, quads: triples.iter().map(|t| (t.0.to_string(), t.1.to_string(), t.2.to_string(), G::Default)).collect(), lines, stmts: stmts.into_iter().map(|(first, last, triples)| Stmt { first, last, triples }).collect(), opts: o }
+}
+
+fn filler(n: usize) -> Vec<String> {
+    (0..n).map(|i| format!("# filler {}", i)).collect()
+}
+
+fn witnesses(ctx: &mut Ctx) {
+    let a = ("http://k/a", "http://k/b", "http://k/c");
+    let d = ("http://k/d", "http://k/e", "http://k/f");
+    let nt = |t: &(&str, &str, &str)| format!("<{}> <{}> <{}> .", t.0, t.1, t.2);
+    ctx.phase("witnesses", 2 * 6);
+    while let Some(k) = ctx.next_case() {
+        // every witness for N3 (k even) and for N-Triples resp. Turtle (k odd)
+        let n3 = k % 2 == 0;
+        let line_fmt = if n3 { Fmt::N3 } else { Fmt::NTriples };
+        let pre_fmt = if n3 { Fmt::N3 } else { Fmt::Turtle };
+        let mut r = ctx.rng(k);
+        let (name, doc, prior): (&str, Doc, PriorKind) = match k / 2 {
+            0 => ("one_triple_into_a_dictionary_holding_one_unrelated_term", hand_doc(line_fmt, vec![nt(&a)], &[a], vec![(0, 0, vec![0])]), PriorKind::DictOneTerm),
+            1 => {
+                let mut l = vec![nt(&a)];
+                l.extend(filler(999));
+                l.push(nt(&d));
+                ("second_triple_on_line_1000_empty_database", hand_doc(line_fmt, l, &[a, d], vec![(0, 0, vec![0]), (1000, 1000, vec![1])]), PriorKind::Empty)
+            }
+            2 => ("one_literal_object_empty_database", hand_doc(line_fmt, vec!["<http://k/a> <http://k/b> \"x\" .".to_string()], &[("http://k/a", "http://k/b", "x")], vec![(0, 0, vec![0])]), PriorKind::Empty),
+            3 => {
+                let mut l = vec!["@prefix k: <http://k/> .".to_string()];
+                l.extend(filler(999));
+                l.push("k:a k:b k:c .".to_string());
+                ("prefix_declared_on_line_0_used_on_line_1000", hand_doc(pre_fmt, l, &[a], vec![(1000, 1000, vec![0])]), PriorKind::Empty)
+            }
+            4 => {
+                let mut l = filler(999);
+                l.push("<http://k/a> <http://k/b> <http://k/c> ;".to_string());
+                l.push("    <http://k/e> <http://k/f> .".to_string());
+                if !n3 {
+                    continue; // only N3 has multi-line statements in its subset
+                }
+                ("statement_on_lines_999_and_1000", hand_doc(Fmt::N3, l, &[a, ("http://k/a", "http://k/e", "http://k/f")], vec![(999, 1000, vec![0, 1])]), PriorKind::Empty)
+            }
+            _ => {
+                let t = ("http://h.org/ns#a", "http://k/b", "http://k/c");
+                let doc = hand_doc(line_fmt, vec![nt(&t)], &[t], vec![(0, 0, vec![0])]);
+                let base = hand_doc(line_fmt, vec![nt(&a)], &[a], vec![(0, 0, vec![0])]);
+                ctx.note("witnesses", &format!("{}:iri_with_fragment", line_fmt.name()));
+                feature_check(ctx, line_fmt, &doc, &base, "iri_with_fragment", true);
+                continue;
+            }
+        };
+        ctx.note("witnesses", &format!("{}:{}", doc.fmt.name(), name));
+        let plan = Plan { fmt: doc.fmt, doc, prior, prior_seed: 7, pools: vec![1] };
+        run_plan(ctx, &mut r, &plan, false);
     }
 }
 
